@@ -76,7 +76,7 @@ def rot_cycle(pts, k, rev):
 
 @st.composite
 def detector_polygon(draw, origin):
-    fam = draw(st.sampled_from(["rect", "square", "htrap", "vtrap", "ctrap", "ctrap", "tri", "near"]))
+    fam = draw(st.sampled_from(["rect", "square", "htrap", "vtrap", "ctrap", "ctrap", "tri", "near", "stair45", "stair45", "octagon"]))
     x0 = origin[0] + draw(st.integers(-500, 500))
     y0 = origin[1] + draw(st.integers(-500, 500))
     w = draw(st.sampled_from([1, 2, 5, 10, 40, 300]))
@@ -85,6 +85,17 @@ def detector_polygon(draw, origin):
         pts = [[0, 0], [w, 0], [w, h], [0, h]]
     elif fam == "square":
         pts = [[0, 0], [w, 0], [w, w], [0, w]]
+    elif fam == "stair45":
+        # Manhattan staircase closed by one 45-degree edge (the implicit Manhattan point-list forms must not be chosen)
+        a = draw(st.sampled_from([2, 4, 10]))
+        pts = [[0, 0], [3 * a, 0], [3 * a, 2 * a], [2 * a, 2 * a], [2 * a, a], [a, a]]
+        if draw(st.booleans()):
+            pts = [[0, 0], [4 * a, 0], [4 * a, 3 * a], [3 * a, 3 * a]]      # right trapezoid: closing edge (3a,3a)->(0,0)
+        if draw(st.booleans()):
+            pts = [[p[1], p[0]] for p in pts]
+    elif fam == "octagon":
+        a, b = draw(st.sampled_from([1, 3, 10])), draw(st.sampled_from([2, 5, 20]))
+        pts = [[a, 0], [a + b, 0], [2 * a + b, a], [2 * a + b, a + b], [a + b, 2 * a + b], [a, 2 * a + b], [0, a + b], [0, a]]
     elif fam in ("htrap", "vtrap"):
         a = draw(st.integers(-w, w))
         b = draw(st.integers(-w, w))
@@ -118,7 +129,7 @@ def detector_polygon(draw, origin):
                 pts = [[p[0], -p[1]] for p in pts]
             if draw(st.booleans()):
                 pts = [[p[1], p[0]] for p in pts]
-    pts = rot_cycle(pts, draw(st.integers(0, 3)), draw(st.booleans()))
+    pts = rot_cycle(pts, draw(st.integers(0, 7)), draw(st.booleans()))
     jit = draw(st.sampled_from([0.0, 0.0, 0.25, -0.3]))
     out = [[float(p[0] + x0) + jit, float(p[1] + y0) - jit] for p in pts]
     return {"tag": [draw(st.sampled_from(BIG)), draw(st.sampled_from(BIG))], "pts": out, "rep": draw(st.one_of(st.none(), st.none(), lg.grid_rep())), "props": draw(oas_props()),
